@@ -171,14 +171,16 @@ impl Transform {
         };
 
         // Check if the program is runnable, fail fast if it is not.
-        match Command::new(&program).spawn() {
+        // This must launch the program exactly as given, the same way as it is launched later,
+        // and not a program of the same name found elsewhere.
+        match Command::new(&parsed[0]).spawn() {
             Ok(mut child) => {
                 let _ignore = child.kill();
             }
             Err(e) => {
                 return Err(io::Error::new(
                     e.kind(),
-                    format!("Cannot launch {program}: {e}"),
+                    format!("Cannot launch {}: {e}", parsed[0].to_string_lossy()),
                 ))
             }
         }
